@@ -1225,9 +1225,12 @@ type modSet struct {
 	heap   map[string]string // array name -> sort
 	cells  map[*ssa.Alloc]bool
 	allocs bool
+	pkgs   map[string]bool // everything stored in objects of types of these packages
 }
 
-func newModSet() *modSet { return &modSet{heap: map[string]string{}, cells: map[*ssa.Alloc]bool{}} }
+func newModSet() *modSet {
+	return &modSet{heap: map[string]string{}, cells: map[*ssa.Alloc]bool{}, pkgs: map[string]bool{}}
+}
 
 func (m *modSet) merge(o *modSet) {
 	if o.all {
@@ -1238,6 +1241,9 @@ func (m *modSet) merge(o *modSet) {
 	}
 	if o.allocs {
 		m.allocs = true
+	}
+	for k := range o.pkgs {
+		m.pkgs[k] = true
 	}
 }
 
@@ -1398,7 +1404,9 @@ func (eng *Engine) callWrites(ms *modSet, ne *Exec, fn *ssa.Function, cc *ssa.Ca
 		case "append":
 			ms.allocs = true
 			et := cc.Args[0].Type().Underlying().(*types.Slice).Elem()
-			if isStructT(et) || isArrayT(et) {
+			if isStructT(et) {
+				eng.addTypeWrites(ms, ne, et)
+			} else if isArrayT(et) {
 				ms.all = true
 			} else {
 				n, s := ne.memArr(et)
@@ -1467,7 +1475,39 @@ func (eng *Engine) callWrites(ms *modSet, ne *Exec, fn *ssa.Function, cc *ssa.Ca
 			return
 		}
 		if len(sp.ModPkgs) > 0 {
-			ms.all = true
+			for _, pk := range sp.ModPkgs {
+				ms.pkgs[pk] = true
+			}
+			ms.allocs = true
+			if !sp.HasModifies {
+				return
+			}
+		}
+		if sp.HasModifies {
+			// explicit locations: over-approximate by the field arrays of the parameter types and the element
+			// arrays of their slice-typed fields (clause expressions are short paths from the parameters)
+			ms.allocs = true
+			for _, p := range callee.Params {
+				switch u := p.Type().Underlying().(type) {
+				case *types.Pointer:
+					eng.addTypeWrites(ms, ne, u.Elem())
+					if st, ok := u.Elem().Underlying().(*types.Struct); ok {
+						for i := 0; i < st.NumFields(); i++ {
+							if sl, ok := st.Field(i).Type().Underlying().(*types.Slice); ok && !isStructT(sl.Elem()) {
+								n, s := ne.memArr(sl.Elem())
+								ms.heap[n] = s
+							}
+						}
+					}
+				case *types.Slice:
+					if isStructT(u.Elem()) {
+						eng.addTypeWrites(ms, ne, u.Elem())
+					} else {
+						n, s := ne.memArr(u.Elem())
+						ms.heap[n] = s
+					}
+				}
+			}
 			return
 		}
 		if sp.Assume && !sp.HasModifies && !sp.Havoc {
